@@ -255,15 +255,58 @@ Proof.
   - eapply cl_received_current_contained; eauto; [rewrite Ek; reflexivity|intros; congruence].
 Qed.
 
-(** activation: everything is re-issued under the new key's certificate or the command fails *)
-Lemma cl_activate_contained dc exp dc' : cl_activate dc exp = Some (Some dc') -> contained dc'.
+(** activation (repaired tree): what is left lies within the new key's certificate - whatever was there before *)
+Lemma activate_one_within signing exp c o :
+  activate_one signing exp c = Some o ->
+  match o with SKeep => False | SRemove => True | SReissue c' => subset (i_res c') signing = true end.
+Proof.
+  unfold activate_one. destruct (reduced_applicable signing (i_res c)) as [r|].
+  - destruct (is_empty r); [intro H; inv H; exact I|].
+    destruct (re_issue _ _ _ _) eqn:R; intro H; inv H. eapply re_issue_within; eauto.
+  - destruct (re_issue _ _ _ _) eqn:R; intro H; inv H. eapply re_issue_within; eauto.
+Qed.
+
+Lemma activate_map_within signing exp m : forall m' rm, activate_map signing exp m = Some (m', rm) -> all_within signing m'.
+Proof.
+  induction m as [|[k c] m IH]; simpl; intros m' rm H.
+  - inv H. constructor.
+  - destruct (activate_one signing exp c) as [o|] eqn:E; [|discriminate].
+    destruct (activate_map signing exp m) as [[r' rm']|]; [|destruct o; discriminate].
+    apply activate_one_within in E.
+    destruct o; inv H; try contradiction; [eapply IH; eauto|constructor; [exact E|eapply IH; eauto]].
+Qed.
+
+Lemma cl_activate_contained dc exp dc' rm : cl_activate dc exp = Some (Some (dc', rm)) -> contained dc'.
 Proof.
   unfold cl_activate. destruct (d_keys dc) eqn:Ek; try (intro H; inv H; fail).
+  destruct (k_req n || k_req c); [discriminate|].
+  destruct (activate_map _ exp (d_issued dc)) as [[i rm1]|] eqn:E1; [|discriminate].
+  destruct (reissue_map _ exp (d_susp dc)) eqn:E2; [|discriminate].
+  intro H; inv H. unfold contained. rewrite cur_res_with. simpl.
+  split; [eapply activate_map_within; eauto|eapply reissue_map_within; eauto].
+Qed.
+
+(** the originally pinned activation kept child certificates within the new certificate only by failing *)
+Lemma cl_activate_pinned_contained dc exp dc' : cl_activate_pinned dc exp = Some (Some dc') -> contained dc'.
+Proof.
+  unfold cl_activate_pinned. destruct (d_keys dc) eqn:Ek; try (intro H; inv H; fail).
   destruct (k_req n || k_req c); [discriminate|].
   destruct (reissue_map _ exp (d_issued dc)) eqn:E1; [|discriminate].
   destruct (reissue_map _ exp (d_susp dc)) eqn:E2; [|discriminate].
   intro H; inv H. unfold contained. rewrite cur_res_with. simpl.
   split; eapply reissue_map_within; eauto.
+Qed.
+
+Lemma activate_classes_contained exp : forall cl cl' rm,
+  activate_classes exp cl = Some (cl', rm) ->
+  Forall (fun p => contained (snd p)) cl -> Forall (fun p => contained (snd p)) cl'.
+Proof.
+  induction cl as [|[c dc] cl IH]; simpl; intros cl' rm H Hl.
+  - inv H. constructor.
+  - destruct (cl_activate dc exp) as [[[dc1 rm1]|]|] eqn:E; [| |discriminate];
+      destruct (activate_classes exp cl) as [[r' rm2]|] eqn:E'; try discriminate; inv H; inv Hl.
+    + constructor; [eapply cl_activate_contained; eauto|eapply IH; eauto].
+    + constructor; [assumption|eapply IH; eauto].
 Qed.
 
 Lemma cl_suspend_contained keys : forall dc, contained dc -> contained (cl_suspend dc keys).
@@ -409,10 +452,8 @@ Proof.
     destruct (d_keys dc) eqn:Ek; try exact Hdc. destruct (aget c fresh); [|exact Hdc].
     apply same_current_contained; [rewrite Ek; reflexivity|exact Hdc].
   - (* activate *)
-    destruct (map_classes_opt _ (da_classes s)) as [cl|] eqn:E; [|discriminate]. inv H. simpl.
-    eapply (map_classes_opt_Forall contained); [|exact E|exact Hin].
-    intros c dc dc' Hdc Hf. cbv beta in Hf. destruct (cl_activate dc exp) as [[dc1|]|] eqn:Ea; inv Hf; [|exact Hdc].
-    eapply cl_activate_contained; eauto.
+    destruct (activate_classes exp (da_classes s)) as [[cl rm]|] eqn:E; [|discriminate]. inv H. simpl.
+    eapply activate_classes_contained; eauto.
   - (* roll finish *)
     destruct (aget c (da_classes s)) as [dc|] eqn:Ec; [|discriminate].
     destruct (d_keys dc) eqn:Ek; try discriminate. inv H. simpl.
@@ -705,7 +746,7 @@ Example received_total_except_limit_nonvacuous :
               (mkCert 1 (0x7 + 0xF0000 + 0x700000000) 0) 0%Z 0%Z = Some r.
 Proof. eexists. vm_compute. reflexivity. Qed.
 
-(** * Finding F04c: key-roll activation re-issues the ROAs without looking at the new key's certificate *)
+(** * Finding F04c (repaired in the tree, 0ff85b31): key-roll activation and the ROAs *)
 
 Definition roas_within (dc : dclass) : Prop :=
   match cur_res dc with
@@ -713,8 +754,20 @@ Definition roas_within (dc : dclass) : Prop :=
   | None => d_roas dc = []
   end.
 
-Definition activate_roas_full : Prop := forall dc exp dc',
-  roas_within dc -> cl_activate dc exp = Some (Some dc') -> roas_within dc'.
+(** The code of record: after activation no ROA lies outside the certificate of the (new) current key -
+    whatever the certificates of the two keys were. *)
+Theorem activate_roas_within dc exp dc' rm : cl_activate dc exp = Some (Some (dc', rm)) -> roas_within dc'.
+Proof.
+  unfold cl_activate, roas_within. destruct (d_keys dc) eqn:Ek; try (intro H; inv H; fail).
+  destruct (k_req n || k_req c); [discriminate|].
+  destruct (activate_map _ _ _) as [[i rm1]|]; [|discriminate]. destruct (reissue_map _ _ _); [|discriminate].
+  intro H; inv H. rewrite cur_res_with. simpl.
+  apply Forall_forall. intros [k m] Hin. apply filter_In in Hin. simpl. tauto.
+Qed.
+
+(** The originally pinned tree, kept as regression witness. *)
+Definition activate_roas_pinned_full : Prop := forall dc exp dc',
+  roas_within dc -> cl_activate_pinned dc exp = Some (Some dc') -> roas_within dc'.
 
 (** current key certified for atoms 0 and 1, new key (certified after the entitlement shrank) for atom 0 only,
     a ROA in 10.1.0.0/16 *)
@@ -722,34 +775,40 @@ Definition f04c_class : dclass :=
   mkDC 1 0 (KRollNew (mkCK 2 (mkCert 2 (0x1 + 0x10000 + 0x100000000) 0) false) (mkCK 1 (mkCert 1 (0x3 + 0x30000 + 0x300000000) 0) false))
        [] [] [] [(1, 0x20000)].
 
-Theorem activate_roas_refuted : ~ activate_roas_full.
+Theorem activate_roas_pinned_refuted : ~ activate_roas_pinned_full.
 Proof.
   intro H. specialize (H f04c_class 0%Z).
-  assert (E : exists dc', cl_activate f04c_class 0 = Some (Some dc')) by (eexists; vm_compute; reflexivity).
+  assert (E : exists dc', cl_activate_pinned f04c_class 0 = Some (Some dc')) by (eexists; vm_compute; reflexivity).
   destruct E as [dc' E]. specialize (H dc').
   assert (W : roas_within f04c_class) by (unfold roas_within; simpl; constructor; [vm_compute; reflexivity|constructor]).
   specialize (H W E). vm_compute in E. inv E. unfold roas_within in H. simpl in H. inv H. vm_compute in H2. discriminate.
 Qed.
 
-(** restriction: the ROAs stay within the current certificate when the new key's certificate holds at least
-    what the current one holds (which is what two further syncs before activation establish) *)
-Theorem activate_roas_except_smaller dc exp dc' n cur :
+(** on the same class the repaired activation removes the ROA *)
+Example activate_roas_repaired_on_witness :
+  exists dc' rm, cl_activate f04c_class 0 = Some (Some (dc', rm)) /\ d_roas dc' = [] /\ roas_within dc'.
+Proof. do 2 eexists. split; [vm_compute; reflexivity|]. split; [reflexivity|constructor]. Qed.
+
+Theorem activate_roas_pinned_except_smaller dc exp dc' n cur :
   d_keys dc = KRollNew n cur -> subset (c_res (k_cert cur)) (c_res (k_cert n)) = true ->
-  roas_within dc -> cl_activate dc exp = Some (Some dc') -> roas_within dc'.
+  roas_within dc -> cl_activate_pinned dc exp = Some (Some dc') -> roas_within dc'.
 Proof.
-  unfold cl_activate, roas_within. intros Ek Hsub Hw. rewrite Ek.
+  unfold cl_activate_pinned, roas_within. intros Ek Hsub Hw. rewrite Ek.
   destruct (k_req n || k_req cur); [discriminate|].
   destruct (reissue_map _ _ _); [|discriminate]. destruct (reissue_map _ _ _); [|discriminate].
   intro H; inv H. rewrite cur_res_with. simpl. unfold cur_res in Hw. rewrite Ek in Hw. simpl in Hw.
   eapply Forall_impl; [|exact Hw]. intros [i m] Hm. simpl in *. eapply subset_trans; eauto.
 Qed.
 
-Example activate_roas_except_smaller_nonvacuous :
-  let dc := mkDC 1 0 (KRollNew (mkCK 2 (mkCert 2 0x30003 0) false) (mkCK 1 (mkCert 1 0x30003 0) false)) [] [] [] [(1, 0x20000)] in
-  roas_within dc /\ exists dc', cl_activate dc 0 = Some (Some dc') /\ roas_within dc'.
+(** activation under a smaller certificate: the child certificate is reduced, the one with nothing left removed *)
+Example activate_shrinks_child_certificates :
+  let dc := mkDC 1 0 (KRollNew (mkCK 2 (mkCert 2 0x10001 0) false) (mkCK 1 (mkCert 1 0x30003 0) false)) []
+                 [(7, mkIC 0x30003 no_limit 0); (8, mkIC 0x20002 no_limit 0)] [] [(1, 0x20000); (2, 0x10000)] in
+  exists dc', cl_activate dc 5 = Some (Some (dc', [8]))
+              /\ d_issued dc' = [(7, mkIC 0x10001 no_limit 5)] /\ d_roas dc' = [(2, 0x10000)] /\ contained dc' /\ roas_within dc'.
 Proof.
-  simpl. split; [constructor; [vm_compute; reflexivity|constructor]|].
-  eexists. split; [vm_compute; reflexivity|]. constructor; [vm_compute; reflexivity|constructor].
+  eexists. split; [vm_compute; reflexivity|]. split; [reflexivity|]. split; [reflexivity|].
+  split; [split; repeat constructor|repeat constructor].
 Qed.
 
 (** Everywhere else the ROAs follow the certificate: receiving a certificate and changing the routes keep them within. *)
